@@ -162,6 +162,8 @@ type App struct {
 	faultN   int
 
 	// monitors
+	FilterIn   [][]string // potential recipients passed to FilterForwarding, per call
+	FilterOut  [][]string // what the filter returned
 	Log        []Call
 	Deliveries []Delivery
 	Reqs       []*Req
@@ -198,6 +200,7 @@ func (a *App) Clone() *App {
 	b.NotOwned = cloneSet(a.NotOwned)
 	b.Locks = map[string]int{}
 	b.Log = nil
+	b.FilterIn, b.FilterOut = nil, nil
 	b.Deliveries = nil
 	b.Reqs = nil
 	b.X, b.S = nil, nil
@@ -249,7 +252,10 @@ func (a *App) Finish(r *Req) {
 type HorizonExceeded struct{ Calls int }
 
 // InjectedError marks errors made by the fault injector.
-type InjectedError struct{ N int; Op string }
+type InjectedError struct {
+	N  int
+	Op string
+}
 
 func (e *InjectedError) Error() string { return fmt.Sprintf("injected-fault#%d@%s", e.N, e.Op) }
 
